@@ -376,6 +376,58 @@ def family_ctxskip(cat):
                             lig3(), tgt()])
 
 
+def family_ctxfilt(cat):
+    """nested lookups are judged by their OWN flags, mark filtering set and attachment type (testcases 2_19),
+    whatever the enclosing lookups use; a nested match never extends beyond the enclosing match (2_07), also
+    through ignored glyphs that trail the nested match (2_08) and at every nesting depth"""
+    fls = [dict(), dict(flags=["mark"]), dict(useSet=True, markSet=1), dict(useSet=True, markSet=2),
+           dict(attach=1), dict(attach=2)]
+    for pf in fls:
+        for cf in fls:
+            if pf == cf:
+                continue
+            for fmt in (1, 3):
+                cat.add("ctxfilt", [lookup([ctx([rule([{1}, {1}], [(0, 2)])], fmt=fmt)], **pf),
+                                    lookup([lig({1: [([1], 3)]})], **cf)])
+                cat.add("ctxfilt", [lookup([ctx([rule([{1}, {1}], [(1, 2), (0, 3)])], fmt=fmt)], **pf),
+                                    lookup([single({1: 2})], **cf),
+                                    lookup([lig({1: [([2], 3), ([4], 6), ([5], 6)]})], **cf)])
+    # three levels: the middle lookup ignores glyphs the outer one does not; the innermost lookup could use
+    # a glyph directly behind the outer match if the middle match were allowed to grow beyond it
+    for pf in (dict(), dict(useSet=True, markSet=1), dict(attach=2)):
+        for cf in (dict(flags=["mark"]), dict(useSet=True, markSet=2), dict(attach=1)):
+            for f1 in (1, 2, 3):
+                for f2 in (1, 2, 3):
+                    for chain in (False, True):
+                        for inner in (lig({1: [([4], 3), ([5], 6)]}), multi({1: [1, 1]}),
+                                      ctx([rule([{1}, {4, 5}], [(1, 4)])], fmt=3)):
+                            cat.add("ctxfilt", [lookup([ctx([rule([{1}, {1}], [(0, 2)])], fmt=f1)], **pf),
+                                                lookup([ctx([rule([{1}, {1}], [(1, 3)])], fmt=f2, chain=chain)], **cf),
+                                                lookup([inner]), lookup([single({4: 2, 5: 2})])])
+
+
+def family_bigid(cat):
+    """glyph ids over the whole 16-bit range: GSUB 1.1 adds its delta modulo 65536; coverage and class
+    lookups are by id, not by small index"""
+    ins = [[100], [40000], [100, 40000, 100], [65535, 0, 65535], [0], [65535], [32768, 32767], [300, 100, 65535, 40000]]
+    cat.add("bigid", [lookup([single({100: 40000}, fmt=1)])], inputs=ins, gdef=GDEF_NONE)
+    cat.add("bigid", [lookup([single({40000: 100}, fmt=1)])], inputs=ins, gdef=GDEF_NONE)
+    cat.add("bigid", [lookup([single({65535: 0, 99: 100}, fmt=1)])], inputs=ins + [[99, 65535]], gdef=GDEF_NONE)
+    cat.add("bigid", [lookup([single({0: 65535, 32768: 32767}, fmt=1)])], inputs=ins, gdef=GDEF_NONE)
+    cat.add("bigid", [lookup([single({32767: 32768, 0: 1}, fmt=1)])], inputs=ins + [[32767, 0]], gdef=GDEF_NONE)
+    cat.add("bigid", [lookup([single({100: 65535, 65535: 0, 0: 100}, fmt=2)])], inputs=ins, gdef=GDEF_NONE)
+    cat.add("bigid", [lookup([multi({65535: [0, 65535], 0: [40000]})])], inputs=ins, gdef=GDEF_NONE)
+    cat.add("bigid", [lookup([lig({65535: [([0], 40000)], 40000: [([100], 65535)]})])], inputs=ins, gdef=GDEF_NONE)
+    cat.add("bigid", [lookup([alt({65535: [300, 0]})])], inputs=ins, gdef=GDEF_NONE)
+    for fmt in (1, 2, 3):
+        cat.add("bigid", [lookup([ctx([rule([{65535}, {0}], [(1, 2)], back=[{100}] if fmt != 2 else [])],
+                                      fmt=fmt, chain=fmt != 2)]),
+                          lookup([single({0: 65535}, fmt=1)])], inputs=ins + [[100, 65535, 0], [65535, 0]], gdef=GDEF_NONE)
+    cat.add("bigid", [lookup([spos({65535: vr(1, 2, 3), 0: vr(-1, -2, -3)})], gpos=True)], inputs=ins, gdef=GDEF_NONE)
+    cat.add("bigid", [lookup([pair1({(65535, 0): (vr(0, 0, -50), vr(1, 0, 0)), (100, 40000): (vr(0, 0, 7), None)})],
+                             gpos=True)], inputs=ins, gdef=GDEF_NONE)
+
+
 def family_chain(cat):
     """GSUB 6 in all three formats with backtrack/lookahead, and GSUB 8"""
     shapes = [
@@ -532,7 +584,7 @@ def family_malformed(cat):
 FAMILIES = {
     "simple": family_simple, "lig": family_lig, "order": family_order, "ctx": family_ctx,
     "chain": family_chain, "gpos": family_gpos, "malformed": family_malformed, "ctxnest": family_ctxnest, "ctxskip": family_ctxskip,
-    "curs": family_curs,
+    "curs": family_curs, "ctxfilt": family_ctxfilt, "bigid": family_bigid,
 }
 
 
